@@ -479,8 +479,9 @@ PROPS["C02"] = {
         H(CEX, "c02_o1_mask_and", "CompiledPredicate::eval_chunk (And)", "d == x & y on 0/1 masks; operands untouched"),
         H(CEX, "c02_o1_mask_or", "CompiledPredicate::eval_chunk (Or)", "d == x | y on 0/1 masks; operands untouched"),
         H(CEX, "c02_o1_mask_not", "CompiledPredicate::eval_chunk (Not)", "d == 1 - x on 0/1 masks; operand untouched"),
-        H(CEX, "c02_o2_compiled_validity_kleene", "CompiledPredicate::evaluate (validity region + any_nulls region)", "row kept <=> Kleene value of `p AND/OR q` is TRUE, all operand states (NULL cells carry arbitrary values)", lane="KX", finding="D1"),
-        H(CEX, "c02_o2_compiled_validity_kleene__excluding_known", "CompiledPredicate::evaluate (validity region + any_nulls region)", "same, outside class D1 (exactly one operand NULL and the other decides)", lane="KX"),
+        H(CEX, "c02_o2_bitmap_exists_for_null_column", "CompiledPredicate::evaluate (bitmap-init region: every statement between the column loop and the chunk loop)", "some referenced column has a NULL ==> a validity bitmap is built (1 or 2 columns, all null patterns)", lane="KX"),
+        H(CEX, "c02_o2_compiled_validity_kleene", "CompiledPredicate::evaluate (validity region + bitmap-init region)", "row kept <=> Kleene value of `p AND/OR q` is TRUE, all operand states (NULL cells carry arbitrary values)", lane="KX", finding="D1"),
+        H(CEX, "c02_o2_compiled_validity_kleene__excluding_known", "CompiledPredicate::evaluate (validity region + bitmap-init region)", "same, outside class D1 (exactly one operand NULL and the other decides)", lane="KX"),
         H(CFO, "c02_o4_eval_int64_add", "ConstantFolding::eval_int64", "Add: folded value == checked_add; overflow not folded; all i64 pairs"),
         H(CFO, "c02_o4_eval_int64_sub", "ConstantFolding::eval_int64", "Subtract: folded value == checked_sub; all i64 pairs"),
         H(CFO, "c02_o4_eval_int64_mul", "ConstantFolding::eval_int64", "Multiply: folded value == checked_mul; all i64 pairs"),
